@@ -305,6 +305,20 @@ impl<const N: usize> Read for SrcEof<N> {
         self.pos += 1;
         Ok(1)
     }
+    /// overrides the provided method (no default_read_exact loop); UnexpectedEof at the end like std
+    fn read_exact(&mut self, buf: &mut [u8]) -> std::io::Result<()> {
+        if buf.len() > self.len - self.pos {
+            self.pos = self.len;
+            return Err(std::io::Error::from(std::io::ErrorKind::UnexpectedEof));
+        }
+        let mut i = 0;
+        while i < buf.len() {
+            buf[i] = self.data[self.pos];
+            self.pos += 1;
+            i += 1;
+        }
+        Ok(())
+    }
 }
 
 /// Recording symbolic bit source for `ReadBits` consumers: every `get(n)` returns fresh
